@@ -1054,17 +1054,43 @@ func compiledCase(k *h.Case, rf *realFonts, workDir string) {
 		args = append(args, n.name+eq+n.val)
 	}
 	lit, parts := renderSource(r, toks, h.Chance(r, 0.25))
-	call := "format(" + lit
+	// string type prefix: changes the directive and the terminator, never the layout
+	strType := ""
+	if h.Chance(r, 0.3) {
+		strType = h.Pick(r, []string{"ascii", "braille", "custom"})
+	}
+	call := "format(" + strType + lit
 	for _, x := range args {
 		call += h.Pick(r, []string{", ", ",", " , "}) + x
 	}
+	if len(named) > 0 && h.Chance(r, 0.15) {
+		call += h.Pick(r, []string{",", " , "}) // trailing comma after a named parameter
+	}
 	call += ")"
-	inline := h.Chance(r, 0.5)
+	host := h.Pick(r, []string{"msgbox", "msgbox", "msgbox", "text", "text", "text", "text-poryswitch", "autovar-condition"})
+	inline := host == "msgbox" || host == "autovar-condition"
 	var src string
-	if inline {
+	switch host {
+	case "msgbox":
 		src = "script S {\n    msgbox(" + call + ")\n}\n"
-	} else {
+	case "text":
 		src = "text T {\n    " + call + "\n}\n"
+	case "text-poryswitch":
+		// the selected case holds the call; the other case holds a differently parameterised one
+		other := "format(\"zz zz zz zz zz zz zz zz\", 17)"
+		opts.Switches = map[string]string{"LANG": "EN"}
+		switch r.IntN(3) {
+		case 0:
+			src = "text T {\n  poryswitch(LANG) {\n    EN: " + call + "\n    _: " + other + "\n  }\n}\n"
+		case 1:
+			src = "text T {\n  poryswitch(LANG) {\n    DE { " + other + " }\n    EN { " + call + " }\n  }\n}\n"
+		default:
+			opts.Switches["LANG"] = "FR"
+			src = "text T {\n  poryswitch(LANG) {\n    EN: " + other + "\n    _ { " + call + " }\n  }\n}\n"
+		}
+	default:
+		opts.Cfg = parser.CommandConfig{AutoVarCommands: map[string]parser.AutoVarCommand{"checkitem": {VarName: "VAR_RESULT"}}}
+		src = "script S {\n    if (checkitem(" + call + ") == 1) {\n        lock\n    }\n}\n"
 	}
 	k.SetSource(src)
 
@@ -1134,23 +1160,36 @@ func compiledCase(k *h.Case, rf *realFonts, workDir string) {
 	} else {
 		k.Count("compiled_text_statement", 1)
 	}
+	k.Count("compiled_host_"+host, 1)
+	if strType != "" {
+		k.Count("compiled_string_type_"+strType, 1)
+	}
 	if parts > 1 {
 		k.Count("compiled_multi_part_literals", 1)
 	}
 	// read the emitted .string lines back
 	var lines []string
+	directive := "\t.string \""
+	if strType != "" {
+		directive = "\t." + strType + " \""
+	}
 	for _, ln := range strings.Split(res.Out, "\n") {
-		if strings.HasPrefix(ln, "\t.string \"") && strings.HasSuffix(ln, "\"") && len(ln) >= len("\t.string \"\"") {
-			lines = append(lines, ln[len("\t.string \""):len(ln)-1])
+		if strings.HasPrefix(ln, directive) && strings.HasSuffix(ln, "\"") && len(ln) >= len(directive)+1 {
+			lines = append(lines, ln[len(directive):len(ln)-1])
 		}
 	}
 	details["emitted"] = res.Out
 	if len(lines) == 0 {
-		k.Violation("F1-no-text-emitted", "F1: the compiled program contains no .string line for the formatted text", details)
+		k.Violation("F1-no-text-emitted", "F1: the compiled program contains no line of the text's directive for the formatted text", details)
 		return
 	}
 	value := strings.Join(lines, "\n")
-	value = strings.TrimSuffix(value, "$")
+	switch strType {
+	case "", "braille":
+		value = strings.TrimSuffix(value, "$")
+	case "ascii":
+		value = strings.TrimSuffix(value, "\\0")
+	}
 	details["output"] = value
 	var o obs
 	if fd := judge(toks, value, target, p, &o); fd != nil {
